@@ -80,7 +80,8 @@ class Ctx:
         e.strip_docs()
         e.inner_attrs()
         try:
-            e.sig_orig = norm(e.fn_parts()[0])
+            # the signature as far as the division of work goes: parameter NAMES (and a leading underscore) do not count
+            e.sig_orig = re.sub(r'\b(?:mut\s+)?_*[A-Za-z][A-Za-z0-9_]*\s*:\s*(?!:)', '', norm(e.fn_parts()[0]))
         except AnchorLost:
             e.sig_orig = None
         e.normalize_params(param_names)
